@@ -12,6 +12,7 @@ package c18
 
 import (
 	"fmt"
+	"net/url"
 	"os"
 	"sort"
 	"strings"
@@ -36,7 +37,13 @@ type Case struct {
 	Opt    string `json:"opt,omitempty"`    // options
 }
 
-var webPages = []string{"/top", "/flamegraph", "/peek?f=.", "/source?f=."}
+// web pages; {K} is replaced by the (URL-escaped) label key of the profile, which
+// turns label values into entries.
+var webPages = []string{"/top", "/flamegraph", "/peek?f=.", "/source?f=.", "/top?tagleaf={K}", "/flamegraph?tagleaf={K}", "/peek?f=.&tagleaf={K}"}
+
+func pageURL(pg string, asg assignment) string {
+	return strings.ReplaceAll(pg, "{K}", url.QueryEscape(labelKey(asg)))
+}
 
 type checker struct {
 	c        *vk.Ctx
@@ -66,7 +73,7 @@ func (k *checker) partSites(idx *int64) {
 	c := k.c
 	nS, nP := len(sites), len(payloads)
 	opts := dotOpts()
-	c.Note(fmt.Sprintf("sites: %d string sites x %d payloads, every single site; pairs of sites: %s; per assignment %d dot option sets (5 granularities x call_tree x {none,tagleaf,tagroot}), 4 callgrind option sets (call_tree x {none,tagleaf}), %d web pages",
+	c.Note(fmt.Sprintf("sites: %d string sites x %d payloads, every single site; pairs of sites: %s; per assignment %d dot option sets (5 granularities x call_tree x {none,tagleaf,tagroot}), 4 callgrind option sets (call_tree x {none,tagleaf}), %d web pages (/top /flamegraph /peek /source, the first three also with tagleaf)",
 		nS, nP, map[bool]string{false: "every pair of sites with equal payloads (quick)", true: "every pair of sites x every pair of payloads (thorough)"}[c.Thorough()], len(opts), len(webPages)))
 	// singles
 	for s := 0; s < nS; s++ {
@@ -186,7 +193,7 @@ func occurrences(out []byte, asg assignment) []occ {
 // checkDot demands: the document is accepted by the DOT grammar; every planted
 // marker lies inside ONE quoted string; every edge endpoint is a declared node.
 // family names the structural predicate of the generator for the endpoint class.
-func (k *checker) checkDot(cs Case, out []byte, asg assignment, family string) {
+func (k *checker) checkDot(cs Case, out []byte, asg assignment, family string) (undeclared bool) {
 	c := k.c
 	doc, toks, perr := parseDot(out)
 	// markers
@@ -200,7 +207,7 @@ func (k *checker) checkDot(cs Case, out []byte, asg assignment, family string) {
 		pre, suf := prefixOf(oc.site), suffixOf(oc.site)
 		if ti < 0 || toks[ti].Kind != tQuoted {
 			c.Violationf("dot/text-outside-string/"+site, cs, "planted text of site %s occurs outside a quoted string at offset %d\n%s", site, oc.off, excerpt(out, oc.off, 120))
-			return
+			return false
 		}
 		win := oc.off + len(pre) + len(pay)*4 + len(suf)
 		if win > len(out) {
@@ -214,7 +221,7 @@ func (k *checker) checkDot(cs Case, out []byte, asg assignment, family string) {
 		end := oc.off + len(pre) + se + len(suf)
 		if end > toks[ti].End {
 			c.Violationf("dot/string-split/"+site, cs, "the text planted at site %s does not lex as one string: the quoted string starting at offset %d ends at %d, inside the planted text\n%s", site, toks[ti].Start, toks[ti].End, excerpt(out, oc.off, 160))
-			return
+			return false
 		}
 		k.reach["dot/"+site] = true
 		c.Count("dot/markers-in-one-string", 1)
@@ -227,7 +234,7 @@ func (k *checker) checkDot(cs Case, out []byte, asg assignment, family string) {
 			}
 		}
 		c.Violationf("dot/syntax/"+strings.Join(names, "+"), cs, "not a DOT document: %v\n%s", perr, excerpt(out, perr.Pos, 200))
-		return
+		return false
 	}
 	c.Count("dot/documents-accepted", 1)
 	for _, e := range doc.Edges {
@@ -238,7 +245,7 @@ func (k *checker) checkDot(cs Case, out []byte, asg assignment, family string) {
 					cl += "/" + family
 				}
 				c.Violationf(cl, cs, "edge %s -> %s: node %s is not declared by any node statement\n%s", e[0], e[1], end, string(out))
-				return
+				return true
 			}
 		}
 	}
@@ -246,6 +253,7 @@ func (k *checker) checkDot(cs Case, out []byte, asg assignment, family string) {
 	if len(doc.Edges) > 0 && len(asg) > 0 {
 		c.Nontrivial("dot|" + cs.Assign + "|" + cs.Opt)
 	}
+	return false
 }
 
 func excerpt(b []byte, off, width int) string {
@@ -340,7 +348,7 @@ func (k *checker) checkCallgrind(cs Case, out []byte, asg assignment, exp *cgExp
 			c.Violationf("callgrind/position/cost-line-not-an-entry", cs, "line %d decodes to %v, which is no (address, line) of the profile\n%s", cl.LineNo, pos, cgExcerpt(out, cl.LineNo))
 			return
 		}
-		if !exp.Fn[pos][cl.Fn] || !exp.Fl[pos][cl.Fl] || !exp.Ob[pos][cl.Ob] {
+		if !nameOK(exp.Fn[pos], cl.Fn) || !nameOK(exp.Fl[pos], cl.Fl) || !nameOK(exp.Ob[pos], cl.Ob) {
 			c.Violationf("callgrind/name/cost-line", cs, "line %d at %v resolves to fn=%q fl=%q ob=%q; the profile has fn %v fl %v ob %v there\n%s", cl.LineNo, pos, cl.Fn, cl.Fl, cl.Ob, keys(exp.Fn[pos]), keys(exp.Fl[pos]), keys(exp.Ob[pos]), cgExcerpt(out, cl.LineNo))
 			return
 		}
@@ -373,7 +381,7 @@ func (k *checker) checkCallgrind(cs Case, out []byte, asg assignment, exp *cgExp
 		} else if call.TargetRel[0] {
 			c.Count("callgrind/relative-call-targets-correct", 1)
 		}
-		if !exp.Fn[good][stripDisambiguation(call.Cfn)] || !exp.Fl[good][call.Cfl] {
+		if !nameOK(exp.Fn[good], stripDisambiguation(call.Cfn)) || !nameOK(exp.Fl[good], call.Cfl) {
 			c.Violationf("callgrind/name/call-target", cs, "line %d: callee at %v resolves to cfn=%q cfl=%q; the profile has fn %v fl %v there\n%s", call.LineNo, good, call.Cfn, call.Cfl, keys(exp.Fn[good]), keys(exp.Fl[good]), cgExcerpt(out, call.LineNo))
 			return
 		}
@@ -383,6 +391,21 @@ func (k *checker) checkCallgrind(cs Case, out []byte, asg assignment, exp *cgExp
 	if len(doc.Calls) > 0 {
 		c.Nontrivial("callgrind|" + cs.Part + "|" + cs.Assign + "|" + cs.Stacks + "|" + cs.Layout + "|" + cs.Opt)
 	}
+}
+
+// nameOK reports whether got is one of the names the profile has at a position.
+// A name with a line break cannot be carried by the format at all (a position
+// name ends at the line end): whatever stands for it is accepted.
+func nameOK(want map[string]bool, got string) bool {
+	if want[got] {
+		return true
+	}
+	for w := range want {
+		if strings.ContainsAny(w, "\r\n") {
+			return true
+		}
+	}
+	return false
 }
 
 func keys(m map[string]bool) []string {
@@ -435,7 +458,7 @@ func (k *checker) calibrate() {
 		return
 	}
 	for _, pg := range webPages {
-		code, body, pan := drive.Get(r.Handlers, "GET", pg)
+		code, body, pan := drive.Get(r.Handlers, "GET", pageURL(pg, asg))
 		if pan != nil || code != 200 {
 			k.c.Note(fmt.Sprintf("calibration: %s answers %d (panic %v); the page carries no HTML to check", pg, code, pan))
 			continue
@@ -450,10 +473,14 @@ func (k *checker) calibrate() {
 }
 
 func pageName(pg string) string {
+	suffix := ""
+	if strings.Contains(pg, "tagleaf=") {
+		suffix = "+tagleaf"
+	}
 	if i := strings.IndexByte(pg, '?'); i >= 0 {
 		pg = pg[:i]
 	}
-	return strings.TrimPrefix(pg, "/")
+	return strings.TrimPrefix(pg, "/") + suffix
 }
 
 func (k *checker) checkWeb(cs Case, data map[string][]byte, asg assignment) {
@@ -473,7 +500,7 @@ func (k *checker) checkWeb(cs Case, data map[string][]byte, asg assignment) {
 		}
 		cs.Output = pg
 		c.Eval()
-		code, body, pan := drive.Get(r.Handlers, "GET", pg)
+		code, body, pan := drive.Get(r.Handlers, "GET", pageURL(pg, asg))
 		if pan != nil {
 			c.Violationf("panic/web"+"/"+pageName(pg), cs, "panic: %v", pan)
 			continue
@@ -483,8 +510,6 @@ func (k *checker) checkWeb(cs Case, data map[string][]byte, asg assignment) {
 			c.Count("web/non-200/"+pageName(pg), 1)
 			continue
 		}
-		before := len(k.htmlSeen.Seen)
-		_ = before
 		fs := checkTaint(body, asg, k.htmlSeen)
 		for s := range asg {
 			if strings.Contains(string(body), prefixOf(s)) {
@@ -640,17 +665,20 @@ func (k *checker) partCancel(idx *int64) {
 	type opt struct {
 		gran string
 		ct   bool
+		dn   bool
 	}
 	var opts []opt
 	for _, g := range []string{"functions", "files", "lines", "addresses"} {
 		for _, ct := range []bool{false, true} {
-			opts = append(opts, opt{g, ct})
+			for _, dn := range []bool{false, true} {
+				opts = append(opts, opt{g, ct, dn})
+			}
 		}
 	}
 	// value vectors of (sample 1, sample 2, sample 3): sample 3 repeats the stack of sample 1
 	vals := [][3]int64{{1, -1, 0}, {1, 1, -1}, {2, -1, -2}}
 	modes := []string{"negative", "diff_base"}
-	c.Note(fmt.Sprintf("cancel: pairs of stack shapes (alphabet of %d kinds, depth<=2, total depth<=%d) x %d value vectors with cancelling weights x {negative sample values, -diff_base of two profiles} x %d dot option sets (4 granularities x call_tree) + callgrind",
+	c.Note(fmt.Sprintf("cancel: pairs of stack shapes (alphabet of %d kinds, depth<=2, total depth<=%d) x %d value vectors with cancelling weights x {negative sample values, -diff_base of two profiles} x %d dot option sets (4 granularities x call_tree x drop_negative) + callgrind",
 		len(sigma), maxSum, len(vals), len(opts)))
 	for i := range shapes {
 		for j := range shapes {
@@ -695,6 +723,9 @@ func (k *checker) partCancel(idx *int64) {
 							data = map[string][]byte{"p": drive.Encode(ap.Concretize(mk(ps...), ap.Opts{})), "b": drive.Encode(ap.Concretize(mk(bs...), ap.Opts{}))}
 							extra = []string{"diff_base=b"}
 						}
+						// an undeclared endpoint under drop_negative is attributed to that option
+						// only if the same report without it has none
+						badPlain := map[string]bool{}
 						for _, o := range opts {
 							fl := append([]string{"dot", o.gran}, extra...)
 							cs.Output, cs.Opt = "dot", o.gran
@@ -702,10 +733,21 @@ func (k *checker) partCancel(idx *int64) {
 								fl = append(fl, "call_tree")
 								cs.Opt += ",call_tree"
 							}
+							family := "cancelling-samples"
+							plainKey := cs.Opt
+							if o.dn {
+								fl = append(fl, "drop_negative")
+								cs.Opt += ",drop_negative"
+								if !badPlain[plainKey] {
+									family = "drop-negative"
+								}
+							}
 							c.Eval()
 							r := drive.Report(data, []string{"p"}, fl...)
 							if k.ran(cs, r) {
-								k.checkDot(cs, r.Out, nil, "cancelling-samples")
+								if k.checkDot(cs, r.Out, nil, family) && !o.dn {
+									badPlain[plainKey] = true
+								}
 								c.Nontrivial("cancel|" + cs.Stacks + "|" + mode + "|" + cs.Opt)
 							}
 						}
